@@ -5,6 +5,7 @@ Property theorems only; helper lemmas live in Proofs/Lemmas/C16*.lean.
 import Proofs.Lemmas.C16Fit
 import Proofs.Lemmas.C16Header
 import Proofs.Lemmas.C16Offs
+import Model.Tab.Render
 
 namespace C16
 open Tab.TextTab
@@ -168,6 +169,27 @@ theorem no_trailing_blanks_partial (offs : List Int) (lm : List Nat) (off : Int)
   · simp only [List.flatten_cons, List.flatten_nil, List.append_nil]
     rw [← List.append_assoc, ← List.append_assoc, getLast?_append_ne_nil _ _ hv,
       getLast?_append_ne_nil _ _ hv]
+
+/-! ### text_csv_same_view -/
+
+open Tab.Render in
+/-- **text_csv_same_view_partial**: in BOTH renderings the physical column groups of the logical
+columns follow the label column without gaps or overlaps — group `exp` ends exactly where group
+`exp+1` starts — so a cell of one logical column can never land under another one, and the text
+group is the CSV group plus one warnings column per sub-group. Gap (hence `_partial`): the
+assembly of the cell strings (labels, scaled numbers, deltas, p-values, footnotes) is not modelled
+here; that both outputs show the same tables, labels, cells, deltas, p-values, warnings and
+numbers to the printed precision is checked end to end by the S oracle `Spec.TextCsv.judge` on
+the real renderings. -/
+theorem text_csv_same_view_partial (exp : Nat) :
+    textStartCol 0 = 1 ∧ csvStartCol 0 = 1 ∧
+    textStartCol exp + textGroupWidth exp = textStartCol (exp + 1) ∧
+    csvStartCol exp + csvGroupWidth exp = csvStartCol (exp + 1) ∧
+    textGroupWidth exp = csvGroupWidth exp + csvGroupWidth exp / 2 := by
+  unfold textStartCol csvStartCol textGroupWidth csvGroupWidth
+  cases exp with
+  | zero => simp
+  | succ n => simp; omega
 
 /-! ### keyheader_partition -/
 
